@@ -65,6 +65,7 @@ fn main() {
         let kind = sc["kind"].as_str().unwrap_or("");
         let r = guarded(|| match kind {
             "metablock_verify" => c04::run(&pool, sc),
+            "genuine_signature" => c04::run_genuine(sc),
             "verify" => verify::run(&pool, sc),
             "verify_sequence" => verify::run_sequence(&pool, sc),
             "parse_datetime" => datetime::run(sc),
